@@ -128,8 +128,7 @@ def check(run):
     for k in (0, len(cases) // 2, len(cases) - 1):
         run.sample({"case": cases[k][:300], "fault": meta[k][2], "model": mo[k][:300], "impl": io[k][:300]})
     report_diffs(run, diffs, "coq/Sequence.v", "the into_stream implementations", "seq")
-    if any(not v.get("no_failing_input_found") for v in run.violations):
-        run.violations = [v for v in run.violations if not v.get("no_failing_input_found")]
+    vlib.prefer_concrete(run)
     return vlib.finish(run, trusted_base=TB, assumptions=["'cannot be decoded' is judged by the implementation's own reply parser (C15/C02 decide that parser)",
                                                            "in-memory writes never fail; write errors are not explored"])
 
